@@ -64,7 +64,6 @@ func rulePutAlwaysWrites(c *Ctx, rule string) {
 	c.Floor(rule, "write transactions of the bolt back-ends", n, 2)
 }
 
-
 // R18.5: Len reports what is stored. The bolt back-ends count the keys of the beacon bucket inside a read transaction
 // (bucket.Stats().KeyN); the in-memory back-end returns the length of its slice. A counter maintained on the side drifts
 // (bolt's Delete succeeds for a missing key, Put overwrites) and only a reopen recounts it.
